@@ -256,7 +256,8 @@ class HarnessResult:
 
 
 CHECK_RE = re.compile(
-    r"^Check (\d+): (\S+)\n\s+- Status: (\w+)\n\s+- Description: \"(.*?)\"\n(?:\s+- Location: (.*?)\n)?",
+    # (a check id may contain spaces: `<impl SliceIndex<str> for RangeTo<usize>>::index.assertion.1`)
+    r"^Check (\d+): ([^\n]+)\n\s+- Status: (\w+)\n\s+- Description: \"(.*?)\"\n(?:\s+- Location: (.*?)\n)?",
     re.M | re.S,
 )
 
